@@ -15,7 +15,9 @@ package main
 //   W2 every top-level declaration after fast.Comp.MacroExpandNodeCodewalk (no ParenExpr left, bare
 //      statements re-wrapped by ast2's Set)
 //   W3 the same declarations with every position removed (trees as a macro would build them by hand)
-//   W4 gomacro sources parsed by the fork parser (quote family, #[...] generics)
+//   W4 gomacro sources parsed by the fork parser (quote family, #[...] generics); trees holding a
+//      macro declaration, a ~func declaration statement or a {block} expression are outside the
+//      property (not valid Go, not built from valid Go): counted and skipped (c25OutOfScope)
 //   W5 macroexpansions of sources calling helper macros; W6 values of random quasiquote templates
 //   W7 corpus file parsed WITH comments, whole file (thorough tier and replay only; informative,
 //      see c25Comments)
@@ -68,9 +70,6 @@ const (
 	c25FindingRecvChan   = "C25-recv-chan-type-printed-without-parentheses"
 	c25FindingFuncTail   = "C25-conversion-to-type-ending-in-func-printed-without-parentheses"
 	c25FindingStarBinary = "C25-star-of-binary-expression-printed-without-parentheses"
-	c25FindingMacroDecl  = "C25-macro-declaration-printed-as-func"
-	c25FindingFuncStmt   = "C25-func-declaration-statement-printed-without-tilde"
-	c25FindingBlockExpr  = "C25-block-expression-printed-as-macrofunc"
 	c25FindingLabelSemi  = "C25-final-label-after-empty-statement-second-print-differs"
 	c25Repaired          = " (known shape repaired)"
 )
@@ -304,6 +303,11 @@ func (c *c25Checker) roundTrip2(workload string, node interface{}, fset *etoken.
 	if c.only != "" && rep.What != c.only {
 		return true
 	}
+	if shape := c25OutOfScope(node); shape != "" {
+		// gomacro-only syntax that is neither valid Go nor built from valid Go: outside the property
+		r.Count("outside the property (not a verdict): tree with "+shape, 1)
+		return true
+	}
 	how := c25How(node)
 	if how == c25AsNothing {
 		c.st.skipped[fmt.Sprintf("no standalone syntax for %T", node)]++
@@ -339,18 +343,6 @@ func (c *c25Checker) roundTrip2(workload string, node interface{}, fset *etoken.
 	}
 	ext := strings.HasPrefix(how, c25AsFork)
 	opt := c22Opt{IgnoreComments: true, StripParens: true, DropEmpty: true, IgnoreImplicit: true, WrapElse: built}
-	macroDecls := 0
-	if ext {
-		// known shape (extension syntax): a macro declaration - FuncDecl with an empty, non-nil
-		// receiver list - is printed with the keyword "func" and reads back as a function
-		opt.Tolerate = func(diff string) bool {
-			if strings.HasSuffix(diff, "(FuncDecl).Recv: *ast.FieldList vs nil") {
-				macroDecls++
-				return true
-			}
-			return false
-		}
-	}
 	var d string
 	if perr == "" {
 		a, b := node, back
@@ -377,22 +369,11 @@ func (c *c25Checker) roundTrip2(workload string, node interface{}, fset *etoken.
 			return false
 		}
 	}
-	if perr != "" && ext {
-		// known shapes (extension syntax)
-		if id := c25ExtensionShape(node); id != "" {
-			r.Known(id, rep, fmt.Sprintf("%s: printed text does not parse back as %s: %s; printed text: %s", label, how, perr, fw.Clip(text1, 300)))
-			return false
-		}
-	}
 	if perr != "" {
 		return fail("reparse-fails", fmt.Sprintf("printed text does not parse back as %s: %s; printed text: %s", how, perr, fw.Clip(text1, 300)))
 	}
 	if d != "" {
 		return fail("tree-differs", fmt.Sprintf("reparsed tree differs from the printed one at %s; printed text: %s", d, fw.Clip(text1, 300)))
-	}
-	if macroDecls != 0 {
-		r.Known(c25FindingMacroDecl, rep, fmt.Sprintf("%s: %d macro declarations are printed as func declarations; printed text: %s", label, macroDecls, fw.Clip(text1, 300)))
-		return false
 	}
 	r.Eval(1)
 	text2, perr := c25PrintDirect(fset2, back)
@@ -1221,22 +1202,30 @@ func c25EndsInBareFunc(t ast.Expr) bool {
 	}
 }
 
-// c25ExtensionShape recognises the gomacro-only forms the printer renders in a way the fork parser
-// does not read back
-func c25ExtensionShape(x interface{}) (id string) {
+// c25OutOfScope names the gomacro-only form in the tree, if any, that is neither valid Go nor built
+// by the macro machinery from valid Go, and that the printer does not render in re-readable syntax:
+// the property does not speak of such trees, so they are counted and skipped.
+func c25OutOfScope(x interface{}) (shape string) {
 	c22EachNode(x, func(nd ast.Node) {
+		if shape != "" {
+			return
+		}
 		switch n := nd.(type) {
 		case *ast.UnaryExpr:
-			if n.Op == etoken.MACRO && id == "" {
-				id = c25FindingBlockExpr // {a; b} as an expression is printed as ~macrofunc() { a; b }
+			if n.Op == etoken.MACRO {
+				shape = "a block expression {a; b} (printed as ~macrofunc() {...})"
 			}
 		case *ast.DeclStmt:
 			if _, ok := n.Decl.(*ast.FuncDecl); ok {
-				id = c25FindingFuncStmt // ~func f() {} among statements is printed as func f() {}
+				shape = "a ~func declaration among statements (printed as func)"
+			}
+		case *ast.FuncDecl:
+			if n.Recv != nil && len(n.Recv.List) == 0 {
+				shape = "a macro declaration (printed as func)"
 			}
 		}
 	})
-	return id
+	return shape
 }
 
 func c25ParenHeaderLiterals(x interface{}) int {
